@@ -254,10 +254,16 @@ theorem helpP_spec (env : Env) (p : PState) : (helpP env p).1.spec = p.spec := b
   unfold helpP
   split
   · rfl
-  · have h2 := preprocess_spec env p []
-    split
-    · rename_i p2 o heq2; rw [heq2] at h2; exact h2
-    · rename_i p2 heq2; rw [heq2] at h2; exact h2
+  · split
+    · rfl
+    · split
+      · rfl
+      · rfl
+      · rename_i defs _
+        have h2 := preprocess_spec env { p with fileDefs := defs } []
+        split
+        · rename_i p2 o heq2; rw [heq2] at h2; exact h2
+        · rename_i p2 heq2; rw [heq2] at h2; exact h2
 
 /-- without constructor files and without `add_config_path_arg` the prologue does nothing -/
 theorem cfgPhase_plain {env : Env} {p : PState} (hf : p.spec.cfgFiles = []) (hc : p.spec.cfgPath = false)
@@ -401,26 +407,30 @@ theorem addP_inv (p : PState) (r : Reg) (h : InvP p) : InvP (addP p r).1 := by
         rw [← List.append_assoc, h3]
 
 theorem helpP_inv (env : Env) (p : PState) (h : InvP p) : InvP (helpP env p).1 := by
-  rcases h with h | h | ⟨h, hconj⟩
-  · left; rw [helpP_spec]; exact h
-  · unfold helpP; simp only [h, ↓reduceIte]; exact Or.inr (Or.inl h)
-  · cases hb : p.broken
-    · unfold helpP
-      simp only [hb, Bool.false_eq_true, ↓reduceIte]
-      rcases h with ⟨h1, h2⟩ | ⟨h1, h2, h3⟩
-      · split
-        · rename_i q o heq
-          rcases preprocess_base_stop env p [] q o h1 heq with e | e
-          · subst e; exact Or.inr (Or.inr ⟨Or.inl ⟨h1, h2⟩, hconj⟩)
-          · subst e; exact Or.inr (Or.inl rfl)
-        · rename_i q heq
-          have key := preprocess_base_ok env p [] q h2 h1 heq
-          refine Or.inr (Or.inr ⟨key.2.2.1, fun hc => ?_⟩)
-          obtain ⟨e1, e2⟩ := hconj (by rw [← key.2.2.2.1]; exact hc)
-          exact ⟨key.2.2.2.2.1.trans e1, key.2.2.2.2.2.trans e2⟩
-      · rw [preprocess_done h1]
-        exact Or.inr (Or.inr ⟨Or.inr ⟨h1, h2, h3⟩, hconj⟩)
-    · unfold helpP; simp only [hb, ↓reduceIte]; exact Or.inr (Or.inl hb)
+  by_cases hf : p.spec.cfgFiles = []
+  · rcases h with h | h | ⟨h, hconj⟩
+    · exact absurd hf h
+    · unfold helpP; simp only [h, ↓reduceIte]; exact Or.inr (Or.inl h)
+    · cases hb : p.broken
+      · rcases h with ⟨h1, h2⟩ | ⟨h1, h2, h3⟩
+        · obtain ⟨q0, rfl⟩ : ∃ q0, p = basePre q0 := ⟨p, h2⟩
+          unfold helpP
+          simp only [hb, hf, h1, loadFiles, Bool.false_eq_true, ↓reduceIte]
+          split
+          · rename_i q o heq
+            rcases preprocess_base_stop env (basePre q0) [] q o h1 heq with e | e
+            · subst e; exact Or.inr (Or.inr ⟨Or.inl ⟨h1, h2⟩, hconj⟩)
+            · subst e; exact Or.inr (Or.inl rfl)
+          · rename_i q heq
+            have key := preprocess_base_ok env (basePre q0) [] q h2 h1 heq
+            refine Or.inr (Or.inr ⟨key.2.2.1, fun hc => ?_⟩)
+            obtain ⟨e1, e2⟩ := hconj (by rw [← key.2.2.2.1]; exact hc)
+            exact ⟨key.2.2.2.2.1.trans e1, key.2.2.2.2.2.trans e2⟩
+        · unfold helpP
+          simp only [hb, h1, Bool.false_eq_true, ↓reduceIte]
+          exact Or.inr (Or.inr ⟨Or.inr ⟨h1, h2, h3⟩, hconj⟩)
+      · unfold helpP; simp only [hb, ↓reduceIte]; exact Or.inr (Or.inl hb)
+  · left; rw [helpP_spec]; exact hf
 
 /-- what a parse does on a set-up parser without `--config_path` -/
 theorem parseP_done_plain (env : Env) (p : PState) (known : Bool) (argv : List Str) (cs : List Nat)
@@ -945,6 +955,13 @@ example : (runHist env0 init d5Hist).getLast? =
 example : (runHist env0 init d6Hist).getLast? =
     some (.ok [{ dest := "a".toList, cls := "A".toList, fields := [("a_b".toList, .sc (.int 1))], sub := none }]
               [] (some (.sc .none)) []) := by decide
+/-- `print_help` before the first parse of a parser with a constructor `config_path=` file (repaired by e83a7f8:
+    the file is applied before the arguments are generated): the later parse sees the file's defaults -/
+def helpCtorHist : List Op := mkP 0 cU clsA "a" (fs := ["f0.json"]) ++ [.printHelp 0, .parse 0 false []]
+theorem helpCtor_regression : allAgree env0 init helpCtorHist = true := by decide
+example : (runHist env0 init helpCtorHist).getLast? =
+    some (.ok [{ dest := "a".toList, cls := "A".toList, fields := [("a_b".toList, .sc (.int 7))], sub := none }] [] none []) := by
+  decide
 /-- the class attributes follow the constructors and — since the repair — the set-up of a parser -/
 example : runG env0 init d5Hist = [cD, cD, cU, cD] := by decide
 
